@@ -182,6 +182,43 @@ def load_harnesses(pid, tier):
 
 
 # ----------------------------------------------------------------------------- replay
+MAX_NATIVE_GB = 6
+
+
+class _R:
+    pass
+
+
+def run_guarded(cmd, stdin_text, env, timeout):
+    """run a native sub-process with a wall limit and a resident-memory limit (a seeded change can make the library loop for ever and grow); None = killed"""
+    import tempfile as _tf
+    with _tf.TemporaryFile('w+') as fo, _tf.TemporaryFile('w+') as fe:
+        p = subprocess.Popen(cmd, stdin=subprocess.PIPE, stdout=fo, stderr=fe, text=True, env=env)
+        try: p.stdin.write(stdin_text); p.stdin.close()
+        except Exception: pass
+        t0 = time.time(); killed = False
+        while p.poll() is None:
+            time.sleep(0.1)
+            try: rss = int(open('/proc/%d/statm' % p.pid).read().split()[1]) * 4096
+            except Exception: rss = 0
+            if time.time() - t0 > timeout or rss > MAX_NATIVE_GB * (1 << 30):
+                p.kill(); p.wait(); killed = True; break
+        if killed: return None
+        fo.seek(0); fe.seek(0)
+        r = _R(); r.returncode = p.returncode; r.stdout = fo.read(); r.stderr = fe.read()
+        return r
+
+
+def native_subprocess(pid, tier, hname, jobi, inputs, ll, so, timeout=120):
+    """native run of a test input for the differential validation, outside this process; returns the result dict of run_native or raises"""
+    spec = dict(pid=pid, tier=tier, hname=hname, jobi=jobi, inputs=inputs, ll=ll, so=so, keep_obs=True)
+    r = run_guarded([sys.executable, os.path.join(HERE, 'replay_one.py')], json.dumps(spec), dict(os.environ), timeout)
+    if r is None: raise Exception('native run did not terminate within %d s or outgrew %d GB' % (timeout, MAX_NATIVE_GB))
+    out = r.stdout.strip().split('\n')[-1] if r.stdout.strip() else ''
+    if r.returncode == 0 and out.startswith('{'): return json.loads(out)
+    raise Exception('native run failed (exit %d): %s' % (r.returncode, (r.stderr or r.stdout)[-300:]))
+
+
 def replay_subprocess(pid, tier, hname, jobi, inputs, ll, so, san, timeout=120):
     """run the harness natively on the counterexample in a sub-process; returns (reproduced?, text)"""
     spec = dict(pid=pid, tier=tier, hname=hname, jobi=jobi, inputs=inputs, ll=ll, so=so)
@@ -192,10 +229,8 @@ def replay_subprocess(pid, tier, hname, jobi, inputs, ll, so, san, timeout=120):
         env['LD_PRELOAD'] = asan + ':' + ubsan
         env['ASAN_OPTIONS'] = 'detect_leaks=0:abort_on_error=0:exitcode=77:allocator_may_return_null=1'
         env['UBSAN_OPTIONS'] = 'halt_on_error=1:exitcode=78:print_stacktrace=0'
-    try:
-        r = subprocess.run([sys.executable, os.path.join(HERE, 'replay_one.py')], input=json.dumps(spec), capture_output=True, text=True, env=env, timeout=timeout)
-    except subprocess.TimeoutExpired:
-        return True, 'native run did not terminate within %d s (hang)' % timeout
+    r = run_guarded([sys.executable, os.path.join(HERE, 'replay_one.py')], json.dumps(spec), env, timeout)
+    if r is None: return True, 'native run did not terminate within %d s or outgrew %d GB (hang / unbounded memory growth)' % (timeout, MAX_NATIVE_GB)
     out = r.stdout.strip().split('\n')[-1] if r.stdout.strip() else ''
     if r.returncode == 0 and out.startswith('{'):
         res = json.loads(out)
@@ -222,7 +257,15 @@ def differential(pid, tier, h, build, seed):
     ll = build.ir(h.wrapper, h.defs); so = build.native(h.wrapper, h.defs)
     mod = load_mod(ll)
     n_ok = 0; mism = []; errs = []
-    for t in tests:
+    # native side: all inputs in one guarded sub-process; if that dies (crash, hang, memory), one sub-process per input
+    prepared = [(t.get('_job', 0), {k: v for k, v in t.items() if not k.startswith('_')}) for t in tests]
+    batch = None
+    r = run_guarded([sys.executable, os.path.join(HERE, 'replay_one.py')], json.dumps(dict(pid=pid, tier=tier, hname=h.name, ll=ll, so=so, batch=prepared)), dict(os.environ), 60 + 20 * len(prepared))
+    if r is not None and r.returncode == 0 and r.stdout.strip():
+        try: batch = json.loads(r.stdout.strip().split('\n')[-1])
+        except Exception: batch = None
+    if batch is not None and len(batch) != len(prepared): batch = None
+    for ti, t in enumerate(tests):
         jobi = t.get('_job', 0); job = h.jobs[jobi]
         inputs = {k: v for k, v in t.items() if not k.startswith('_')}
         I = make_interp(h, ll)
@@ -231,7 +274,8 @@ def differential(pid, tier, h, build, seed):
         iobs = getattr(I, 'last_obs', None)
         istat = 'finding:' + res[0]['kind'] if res else ('unsupported:' + I.stats['unsupported'][0] if I.stats['unsupported'] else 'ok')
         try:
-            nr = run_native(mod, so, lambda N: h.fn(N, job), inputs, h.mode)
+            nr = batch[ti] if batch is not None else native_subprocess(pid, tier, h.name, jobi, inputs, ll, so)
+            if nr.get('status') == 'error': raise Exception(nr.get('msg'))
         except Exception as e:
             errs.append('native error on %s: %s' % (inputs, e)); continue
         if nr['status'] == 'assumption-violated': continue          # generated test input outside the harness's domain
@@ -241,7 +285,8 @@ def differential(pid, tier, h, build, seed):
             errs.append('interpreter unsupported on test %s: %s' % (inputs, istat)); continue
         if res and nr['status'] == 'finding':
             n_ok += 1; continue
-        if istat != nstat or [tuple(x) for x in (iobs or [])] != [tuple(x) for x in (nobs or [])]:
+        canon = lambda o: json.loads(json.dumps(o or [], default=str))          # the native observations come back through JSON (tuples become lists)
+        if istat != nstat or canon(iobs) != canon(nobs):
             mism.append(dict(inputs=inputs, interp=(istat, iobs), native=(nstat, nobs)))
         else: n_ok += 1
     return n_ok, mism, errs
